@@ -1,4 +1,5 @@
 """C09 — the deps log survives torn writes, restarts and compaction (DESIGN 5.9)."""
+import os
 from facts import AnalysisBroken
 from model import (dstr, strip, fact_holds, mentions_field, mentions_call, mentions_var,
                    const_value, walk, norm_cond, _split_composite)
@@ -479,41 +480,87 @@ def rule_tb1(ctx, RID):
                 key = norm(dstr(si))
                 validated = [x for x in load.events('decl') if x.get('init') is not None and
                              norm(dstr(strip(x['init']))) == key and load.ev_reaches(x, e)]
-                ok = bool(validated)
                 vname = validated[0]['n'] if validated else None
-                # the validating loop checks both bounds of that variable
+                # ... or by a loop that walks an iterator over the same words: `it = base; it != base + n; ++it` with
+                # the re-read index bounded by the same n (std::all_of over [base, base + n) after desugaring)
+                base = strip(si.get('b'))
+                its = set()
+                if isinstance(base, dict) and base.get('k') == 'var':
+                    for x in load.events('decl'):
+                        i0 = strip(x.get('init')) if x.get('init') is not None else None
+                        if isinstance(i0, dict) and i0.get('k') == 'var' and i0.get('n') == base['n'] and load.ev_reaches(x, e):
+                            # the loop bound: a header condition `it != base + n`
+                            for bid, blk in load.blocks.items():
+                                t = blk.get('term')
+                                c = dstr(t.get('cond')) if t and 'cond' in t else ''
+                                if t and t['kind'] in ('for', 'while') and x['n'] in c and base['n'] in c and \
+                                        upper_by_fact(load, e, si.get('i'), lambda r: isinstance(strip(r), dict) and
+                                                      strip(r).get('k') == 'var' and strip(r)['n'] in c):
+                                    its.add(x['n'])
+
+                def is_elem(d):
+                    d = strip(d)
+                    if not isinstance(d, dict):
+                        return False
+                    if vname and d.get('k') == 'var' and norm(d['n']) == norm(vname):
+                        return True
+                    if d.get('k') == 'un' and d.get('op') == '*' or (d.get('k') == 'call' and d.get('op') == '*'):
+                        inner = strip(d.get('e') if d.get('k') == 'un' else (d.get('recv') or (d.get('args') or [None])[0]))
+                        return isinstance(inner, dict) and inner.get('k') == 'var' and inner['n'] in its
+                    return False
+                ok = bool(validated) or bool(its)
+                # the validating loop checks both bounds of that word
                 ok2 = False
-                if vname:
+                if ok:
                     for x in load.events('call'):
                         if x.get('op') == '[]' and mentions_field(x.get('recv'), 'DepsLog::nodes_') and \
-                                mentions_var(x.get('args'), vname):
+                                x is not e and is_elem((x.get('args') or [None])[0]):
                             lo, hi = bounds(load, x, x['args'][0])
                             ok2 = lo >= 0 and upper_by_fact(load, x, x['args'][0], nodes_size)
                 # and a failed validation prevents reaching here: no path from an edge on which the
                 # validated word is out of range (or names no node) leads to this subscript
-                guard = bool(vname)
-                nfail = 0
-                if vname:
+                guard = ok
+                covered = set()
+                if ok:
+                    def kind_of(a, pol):
+                        a = strip(a)
+                        if isinstance(a, dict) and a.get('k') == 'bin' and a['op'] == '<' and is_elem(a['l']):
+                            if const_value(a['r']) == 0 and pol is True:
+                                return 'negative'               # id < 0
+                            if nodes_size(a['r']) and pol is False:
+                                return 'too-large'              # !(id < nodes_.size())
+                        if isinstance(a, dict) and a.get('k') == 'call' and a.get('op') == '[]' and \
+                                mentions_field(a.get('recv'), 'DepsLog::nodes_') and is_elem((a.get('args') or [None])[0]) and pol is False:
+                            return 'no-node'                    # !nodes_[id]
+                        return None
                     for bb, blk in load.blocks.items():
                         for i2, s2 in enumerate(blk['succ']):
                             if s2 is None:
                                 continue
                             for fk, pol, atom in load.edge_facts(bb, i2):
                                 a = strip(atom)
-                                bad = False
-                                if isinstance(a, dict) and a.get('k') == 'bin' and a['op'] == '<' and mentions_var(a, vname):
-                                    if is_var(vname)(a['l']) and const_value(a['r']) == 0 and pol is True:
-                                        bad = True              # id < 0
-                                    if is_var(vname)(a['l']) and nodes_size(a['r']) and pol is False:
-                                        bad = True              # !(id < nodes_.size())
-                                if isinstance(a, dict) and a.get('k') == 'call' and a.get('op') == '[]' and \
-                                        mentions_field(a.get('recv'), 'DepsLog::nodes_') and mentions_var(a.get('args'), vname) and pol is False:
-                                    bad = True                  # !nodes_[id]
-                                if bad:
-                                    nfail += 1
-                                    if load.find_path(None, lambda x: x is e, from_succ=s2, init_facts=[(fk, pol)]) is not None:
+                                # the alternatives this edge stands for: `f1 || f2 || f3` taken, or a single test
+                                parts = [(atom, pol)]
+                                if isinstance(a, dict) and a.get('k') == 'bin' and a['op'] in ('||', '&&') and (a['op'] == '||') == bool(pol):
+                                    parts, st = [], [a]
+                                    while st:
+                                        x = strip(st.pop())
+                                        if isinstance(x, dict) and x.get('k') == 'bin' and x['op'] == a['op']:
+                                            st += [x['l'], x['r']]
+                                        else:
+                                            pa, pp = norm_cond(prog, x)
+                                            parts.append((pa, pp if pol else (not pp)))
+                                kinds = {kind_of(pa, pp) for pa, pp in parts} - {None}
+                                if kinds:
+                                    if load.find_path(None, lambda x: x is e, from_succ=s2,
+                                                      init_facts=frozenset((k_, p_) for k_, p_, a_ in load.edge_facts(bb, i2))) is not None:
                                         guard = False
-                    guard = guard and nfail >= 3
+                                    else:
+                                        covered |= kinds
+                    guard = guard and covered == {'negative', 'too-large', 'no-node'}
+                nfail = sorted(covered)
+                if os.environ.get('NV_DEBUG'):
+                    print('revalidation', key, 'validated', bool(validated), 'its', its, 'ok2', ok2, 'guard', guard, 'nfail', nfail)
                 ctx.check(RID, ok and ok2 and guard, load.name, 'nodes_[]:revalidation:%s' % key, load.where(e),
                           'nodes_[%s] re-reads a word that a preceding loop validated (0 <= id < nodes_.size()) '
                           'and is reached only when that validation did not fail' % key)
